@@ -14,11 +14,12 @@ import (
 // returns, and a scope applies its namespaces one after the other. Code that runs as part of ApplyNamespace therefore
 // must not use a child Object through a method that requires a linked reference, unless it has established that the
 // child is not an unlinked reference.
-//   linked-only methods: the methods of *RefSchema that panic under `referencedObjectCache == nil` (from the code).
-//   obligations: every interface call of such a method on a receiver of static type Object in a function reachable
-//     from an ApplyNamespace method (not following calls into RefSchema's own methods).
-//   discharge: on every path to the call a branch established that the receiver is not a *RefSchema (failed comma-ok
-//     assertion) or that the asserted reference's ObjectReady() is true.
+//
+//	linked-only methods: the methods of *RefSchema that panic under `referencedObjectCache == nil` (from the code).
+//	obligations: every interface call of such a method on a receiver of static type Object in a function reachable
+//	  from an ApplyNamespace method (not following calls into RefSchema's own methods).
+//	discharge: on every path to the call a branch established that the receiver is not a *RefSchema (failed comma-ok
+//	  assertion) or that the asserted reference's ObjectReady() is true.
 func (c *Ctx) ruleNsDeref(rule string) {
 	linkedOnly := map[string]bool{}
 	var refNamed *types.Named
